@@ -99,12 +99,16 @@ func runC07(c *fw.Case) (o fw.Outcome) {
 	copy(otherKey[:], rbytes(r, 16))
 	for alg := uint8(0); alg <= 2; alg++ {
 		want, _ := sec.NEA(alg, key[:], count, bearer, dir, msg)
-		got := append([]byte(nil), msg...)
+		got, gdmg := guarded(r, msg)
 		if err := security.NASEncrypt(alg, key, count, bearer, dir, got); err != nil {
 			o.Fail(fmt.Sprintf("nea%d-error", alg), "NASEncrypt(NEA%d) error: %v", alg, err)
 			return
 		}
 		o.Count("encryptions", 1)
+		if d := gdmg(true); d != "" {
+			o.Fail(fmt.Sprintf("nea%d-writes-outside-message", alg), "NASEncrypt(NEA%d, %d octets): %s", alg, n, d)
+			return
+		}
 		if !bytes.Equal(got, want) {
 			d := 0
 			for d < n && got[d] == want[d] {
@@ -141,8 +145,13 @@ func runC07(c *fw.Case) (o fw.Outcome) {
 	}
 	for alg := uint8(1); alg <= 2; alg++ {
 		want, _ := sec.NIA(alg, key[:], count, bearer, dir, msg)
-		got, err := security.NASMacCalculate(alg, key, count, bearer, dir, append([]byte(nil), msg...))
+		mview, mdmg := guarded(r, msg)
+		got, err := security.NASMacCalculate(alg, key, count, bearer, dir, mview)
 		o.Count("macs", 1)
+		if d := mdmg(false); d != "" {
+			o.Fail(fmt.Sprintf("nia%d-writes-to-message", alg), "NASMacCalculate(NIA%d, %d octets): %s", alg, n, d)
+			return
+		}
 		if err != nil {
 			o.Fail(fmt.Sprintf("nia%d-error", alg), "NASMacCalculate(NIA%d) error: %v", alg, err)
 			return
